@@ -402,6 +402,8 @@ package nfs
 //@   requires rpcPre(nfs)
 // Fn2-flow (C02): a symbolic link's target is written whole, from offset 0, into the new inode
 //@   callsite inode.(*Inode).Write@1 requires [Fn2-link-target] arg0 == ip && arg2 == 0 && arg3 == len(data) && arg4 == data @C02
+// (D-40) the name of a symbolic link is entered only once the whole target has been stored
+//@   callsite dir.AddName@1 requires [Fn2-link-whole] kind == 5 ==> callresult("inode.(*Inode).Write@1", 0) == len(data) @C02 @C09
 //@   allocates $TXALLOC, $DIRALLOC
 //@   modifies $TXMODS, $FILEMODS, $DIRMODS, $SHRINKMODS, dnames, shrinker.ShrinkerSt.nthread
 //@   ensures [F2-scheduled] forall j uint64 :: shrinkdue[j] ==> old(shrinkdue)[j] @C05
